@@ -96,7 +96,7 @@ DefaultRosTransient == \A c \in DefaultRos : Fv!CdnRetryable(c)
 NoTrip(err)     == err.kind = "HttpStatus" /\ err.code = 404
 ZeroWeight(err) == err.kind = "HttpStatus" /\ (err.code \in 200..299 \/ err.code = 429)
 MaxWindowS == 900          \* no failure makes a server unavailable for longer than 15 minutes
-ClockSlackS == 5           \* real seconds that may pass between two operations of a program
+ClockSlackS == 20          \* real seconds that may pass between two operations of a program (loaded machine)
 
 Down(ob, h)     == ob.health[h][1] = "U"
 MustAvail(ob, h) == ~Down(ob, h) \/ ob.health[h][2] = 0               \* window certainly over
